@@ -171,6 +171,19 @@ pub enum Agg {
     Hist { field: Fd, interval: i64, offset: Option<i64>, mdc: Option<u64>, hard: Option<(i64, i64)>, ext: Option<(i64, i64)>, date_hist: bool },
     Range { field: Fd, ranges: Vec<(Option<i64>, Option<i64>, Option<String>)> },
     Filter { field: Fd, code: i64 },
+    /// composite: every source is a terms source (`interval = None`) or a histogram source
+    Composite { sources: Vec<CSrc>, size: u32 },
+}
+
+#[derive(Clone, PartialEq, Debug, Serialize, Deserialize)]
+pub struct CSrc { pub name: String, pub field: Fd, pub interval: Option<i64>, pub desc: bool }
+
+/// composite key values of a document for one source (model codes; histogram: bucket start)
+pub fn csrc_vals(src: &CSrc, d: &MDoc, per_value: bool) -> Vec<i64> {
+    let mut v: Vec<i64> = d[src.field.id()].iter().map(|&x| match src.interval { Some(i) => x.div_euclid(i) * i, None => x }).collect();
+    v.sort();
+    if !per_value { v.dedup(); }
+    v
 }
 
 /// include / exclude of a terms aggregation on a string field
@@ -302,6 +315,17 @@ pub fn nodes_to_json(nodes: &[Node]) -> Value {
                 }).collect();
                 o.insert("range".into(), if n.opt.keyed { json!({"field": field.name(), "ranges": rs, "keyed": true}) } else { json!({"field": field.name(), "ranges": rs}) });
             }
+            Agg::Composite { sources, size } => {
+                let srcs: Vec<Value> = sources.iter().map(|c| {
+                    let ord = if c.desc { "desc" } else { "asc" };
+                    let inner = match c.interval {
+                        Some(i) => json!({"histogram": {"field": c.field.name(), "interval": real_num(c.field, i), "order": ord}}),
+                        None => json!({"terms": {"field": c.field.name(), "order": ord}}),
+                    };
+                    json!({ c.name.clone(): inner })
+                }).collect();
+                o.insert("composite".into(), json!({"sources": srcs, "size": size}));
+            }
             Agg::Filter { field, code } => {
                 let q = if field.is_str() { format!("{}:{}", field.name(), universe(*field)[*code as usize]) } else { format!("{}:{}", field.name(), code) };
                 o.insert("filter".into(), json!(q));
@@ -359,6 +383,7 @@ pub fn nodes_to_lean(nodes: &[Node], counts_only: bool, ranks: &Ranks) -> String
                 format!("{s},{sub}")
             }
             Agg::Filter { field, code } => format!("F,{},{},{}", field.id(), code, sub),
+            Agg::Composite { .. } => "N".into(),
         }
     }
     match nodes.len() {
@@ -501,6 +526,15 @@ fn gen_bucket(rng: &mut Rng, depth: usize) -> Agg {
             rng.shuffle(&mut ranges);
             Agg::Range { field, ranges }
         }
+        9 if rng.chance(2, 3) => {
+            let k = 1 + rng.usize_below(2);
+            let sources = (0..k).map(|i| {
+                let field = *rng.pick(&[Fd::Cat, Fd::Kw, Fd::U, Fd::I, Fd::JsN]);
+                let interval = if field.is_numeric() && rng.chance(1, 2) { Some(*rng.pick(&[5i64, 10, 25])) } else { None };
+                CSrc { name: format!("s{i}"), field, interval, desc: rng.chance(1, 3) }
+            }).collect();
+            Agg::Composite { sources, size: *rng.pick(&[1u32, 2, 5, 50]) }
+        }
         _ => {
             if rng.chance(1, 2) { Agg::Filter { field: Fd::Sel, code: rng.below(4) as i64 } }
             else { Agg::Filter { field: Fd::Cat, code: rng.below(5) as i64 } }
@@ -542,7 +576,7 @@ pub fn gen_nodes(rng: &mut Rng, depth: usize, max_depth: usize, counter: &mut us
 /// false when the request uses something the Lean model does not cover
 pub fn lean_modelled(nodes: &[Node]) -> bool {
     nodes.iter().all(|n| !matches!(&n.agg, Agg::Terms { field, mdc: Some(0), .. } if field.is_str())
-        && n.opt.include.is_none() && n.opt.exclude.is_none() && n.opt.sub_order.is_none() && lean_modelled(&n.subs))
+        && !matches!(n.agg, Agg::Composite { .. }) && n.opt.include.is_none() && n.opt.exclude.is_none() && n.opt.sub_order.is_none() && lean_modelled(&n.subs))
 }
 
 /// keyed output, include / exclude, order by a metric sub-aggregation
